@@ -1,6 +1,7 @@
 (* Lint levels (C13).
-   lint <cli: a,b | -> F <file allows: a,b | -> ... E <ent: allows(a,b|-):parent(n|-)> ... D <diag: code(|E):file(n|-):scope(n|-)> ...
-   -> one level per diagnostic (Error|Warning|Allowed), then "totals w e" *)
+   lint <cli: a,b | -> F <file allows: a,b | -> ... E <ent: allows(a,b|-):parent(n|-)[:r1.c1.r2.c2:p(0|1):file:under(r1.c1.r2.c2|-)]> ... D <diag: code(|E):file(n|-):scope(n|m|-)[:r1.c1.r2.c2]> ...  (scope m: a scope that names no entity)
+   -> one level per diagnostic (Error|Warning|Allowed), then "totals w e".  With locations given, a lint is scoped to the element it
+   concerns (Sema/Lints.v concerned) before its level is computed. *)
 open Model
 open Conv
 
@@ -15,10 +16,19 @@ let handle = function
     let (fs, r1) = section "F" rest in
     let (es, r2) = section "E" r1 in
     let (ds, _) = section "D" r2 in
-    let ents = List.map (fun e -> match String.split_on_char ':' e with [a; p] -> { ent_allows = strs a; ent_parent = optn p } | _ -> failwith "ent") es in
+    let span4 t = (match List.map int_of_string (String.split_on_char '.' t) with
+      | [a; b; c; d] -> { ls_lo = (nat_of_int a, nat_of_int b); ls_hi = (nat_of_int c, nat_of_int d) } | _ -> failwith "span") in
+    let nowhere = { ls_lo = (nat_of_int 0, nat_of_int 0); ls_hi = (nat_of_int 0, nat_of_int 0) } in
+    let ents = List.map (fun e -> match String.split_on_char ':' e with a :: p :: _ -> { ent_allows = strs a; ent_parent = optn p } | _ -> failwith "ent") es in
+    let places = List.map (fun e -> match String.split_on_char ':' e with
+      | [_; _; sp; pr; fl; un] -> { lp_span = span4 sp; lp_param = (pr = "1"); lp_file = nat_of_int (int_of_string fl); lp_under = (if un = "-" then None else Some (span4 un)) }
+      | _ -> { lp_span = nowhere; lp_param = false; lp_file = nat_of_int 0; lp_under = None }) es in
     let c = { c_cli = strs cli; c_file_allows = List.map strs fs; c_ents = ents } in
     let diags = List.map (fun d -> match String.split_on_char ':' d with
-      | [code; f; s] -> { d_lint = (if code = "E" then None else Some (codes code)); d_file = optn f; d_scope = optn s } | _ -> failwith "diag") ds in
+      | [code; f; s] -> { d_lint = (if code = "E" then None else Some (codes code)); d_file = optn f; d_scope = optn s }
+      | [code; f; "m"; sp] -> locate_unscoped c places { d_lint = (if code = "E" then None else Some (codes code)); d_file = optn f; d_scope = None } (if sp = "-" then None else Some (span4 sp))
+      | [code; f; s; sp] -> locate c places { d_lint = (if code = "E" then None else Some (codes code)); d_file = optn f; d_scope = optn s } (if sp = "-" then None else Some (span4 sp))
+      | _ -> failwith "diag") ds in
     let show = function LError -> "Error" | LWarning -> "Warning" | LAllowed -> "Allowed" in
     let (w, e) = totals c diags in
     String.concat " " (List.map (fun d -> show (level_of c d)) diags) ^ Printf.sprintf " | totals %d %d" (int_of_nat w) (int_of_nat e)
